@@ -1169,6 +1169,21 @@ pub fn build(entropy: &[u32], cfg: &GenCfg) -> Built {
         b.stats.features.insert("forward_ref_to_shadowing_definition".into());
     }
 
+    if cfg.vars && b.e.chance(1, 8) {
+        // a variable that an inner scope redefines in terms of itself: every use sees the value given last, in source order
+        let v = b.fresh("v");
+        main.push(Stmt::Var { name: v.clone(), e: Expr::num(b.e.range(0, 40)) });
+        for _ in 0..1 + b.e.below(2) {
+            let mut inner = vec![Stmt::Data { size: DataSize::Byte, vals: vec![Expr::id(&v)] }];
+            for _ in 0..1 + b.e.below(2) {
+                inner.push(Stmt::Var { name: v.clone(), e: Expr::bin(Expr::id(&v), BinOp::Add, Expr::num(b.e.range(1, 5))) });
+                inner.push(Stmt::Instr { mn: "lda".into(), form: Form::Imm, operand: Some(Expr::id(&v)) });
+            }
+            main.push(Stmt::Braces(inner));
+        }
+        main.push(Stmt::Data { size: DataSize::Byte, vals: vec![Expr::id(&v)] });
+    }
+
     let mut prog = Program::single(main);
     strip_const_refs_to_consts(&mut prog);
 
